@@ -201,6 +201,11 @@ Section Model.
         end
     end.
 
+  (* balancer.DoneInfo as gRPC fills it: Err (None = nil, Some c = status code), BytesSent, BytesReceived,
+     Trailer present, ServerLoad present.  The done func reads info.Err and nothing else (p2c.go:155-158). *)
+  Record doneinfo := mkinfo { d_err : option Z; d_sent : bool; d_recv : bool; d_trailer : bool; d_load : bool }.
+  Definition done_info (s : st) (k : nat) (info : doneinfo) (w : W) : result st := done s k (d_err info) w.
+
   Definition advance (s : st) (dt : Z) : st := mkst (now s + dt) (conns s) (stamp s) (tokens s).
 
   (* histories *)
